@@ -40,6 +40,8 @@ package peer
 // The claimed sender decodes to an ID, and the key returned is the key embedded in that ID.
 //@ func IDFromBytes
 //@   ensures ret1 == nil ==> ret0 == content(b)
+//@   ensures ret1 == nil ==> mhWellFormed(content(b))
+//@   ensures ret1 == nil ==> uvarintVal(b) == 0
 //@ func IDB58Decode
 //@   ensures ret1 == nil ==> b58ok(s) && ret0 == b58dec(s)
 //@ func (*SignedMsg).ParseFromPeerID
@@ -48,6 +50,10 @@ package peer
 // multihash layout: uvarint(code) ++ uvarint(len(digest)) ++ digest
 //@ spec fun mhRest(b bytes) bytes = b[uvarintLen(b)..]
 //@ spec fun mhDigest(b bytes) bytes = mhRest(b)[uvarintLen(mhRest(b))..]
+// mhWellFormed(b): two well-formed varints followed by exactly the announced number of digest bytes.
+//@ spec fun mhWellFormed(b bytes) bool = len(b) > 0 && uvarintLen(b) > 0 && uvarintLen(mhRest(b)) > 0 && uvarintVal(mhRest(b)) == len(mhDigest(b))
+// mhEnc(code, d): the multihash encoding written by encodeMultihash.
+//@ spec fun mhEnc(code int, d bytes) bytes = putUv(code) ++ (putUv(len(d)) ++ d)
 //@ func decodeMultihash
 //@   ensures err == nil ==> code == uvarintVal(b) && content(digest) == mhDigest(b)
 //@   ensures err == nil ==> uvarintLen(b) > 0
@@ -111,3 +117,28 @@ package peer
 //@ func DecryptWithPrivKey
 //@   noframe
 //@   requires privKeyOK(privKey)
+
+// ---- C10: peer IDs faithfully encode public keys ----
+//@ func encodeMultihash
+//@   ensures content(ret) == mhEnc(code, digest)
+//@   fresh ret
+
+// The ID of a key is the identity multihash of its protobuf encoding.
+//@ func IDFromPublicKey
+//@   ensures ret1 == nil ==> ret0 == mhEnc(0, pubKeyPB(rawPub(pk)))
+//@ func IDFromPrivateKey
+//@   ensures ret1 == nil ==> ret0 == mhEnc(0, pubKeyPB(pubOf(rawPriv(sk))))
+
+// An ID matches a key exactly when it is the ID derived from that key.
+//@ func (ID).MatchesPublicKey
+//@   ensures ret ==> id == mhEnc(0, pubKeyPB(rawPub(pk)))
+
+// decoding inverts encoding: the digest of an encoded multihash is the digest, its code the code
+//@ lemma mh-code: forall c int, d bytes :: 0 <= c && c <= 18446744073709551615 ==> uvarintVal(mhEnc(c, d)) == c && uvarintLen(mhEnc(c, d)) == len(putUv(c))
+//@ lemma mh-rest: forall c int, d bytes :: 0 <= c && c <= 18446744073709551615 ==> mhRest(mhEnc(c, d)) == putUv(len(d)) ++ d
+//@ lemma mh-roundtrip: forall c int, d bytes :: 0 <= c && c <= 18446744073709551615 && len(d) <= 9223372036854775807 ==> uvarintVal(mhEnc(c, d)) == c && mhDigest(mhEnc(c, d)) == d && mhWellFormed(mhEnc(c, d))
+// so the key embedded in the ID of a key is that key, and different keys have different IDs
+//@ lemma id-key-roundtrip: forall k bytes :: len(pubKeyPB(k)) <= 9223372036854775807 ==> pubKeyFromPB(mhDigest(mhEnc(0, pubKeyPB(k)))) == k
+//@ lemma id-injective: forall a bytes, b bytes :: len(pubKeyPB(a)) <= 9223372036854775807 && len(pubKeyPB(b)) <= 9223372036854775807 && mhEnc(0, pubKeyPB(a)) == mhEnc(0, pubKeyPB(b)) ==> a == b
+// and the text form round-trips
+//@ lemma id-text-roundtrip: forall i bytes :: b58ok(b58enc(i)) && b58dec(b58enc(i)) == i
